@@ -154,6 +154,7 @@ func runC17(r *mon.Run) {
 	}
 	c17Components(r, rng)
 	c17ORForgery(r, rng)
+	c17PrimePowerFactor(r, rng)
 	r.FloorAccept("complete", 2)
 	r.FloorFam("binding", 5)
 	r.FloorFam("leaf-alter", 20)
@@ -478,6 +479,41 @@ func c17ORForgery(r *mon.Run, rng *rand.Rand) {
 		}
 	}
 	r.FloorFam("or-forgery", 6)
+}
+
+// ---- (f) whole proof on a modulus with a factor 2r^3+1 ----
+
+// c17PrimePowerFactor plays keyproof.VerifForgeKeyProofPrimePowerFactor: N = P*Q with Q = 2r^3+1 prime, so that every
+// component proof about N holds and only "q' is prime" excludes the key. The slot of that primality proof is filled with a
+// primality proof about p' (wiring confusion: a true statement about the other factor); the whole proof must be refused.
+func c17PrimePowerFactor(r *mon.Run, rng *rand.Rand) {
+	var pp, rr *big.Int
+	if pv, _ := mon.Try(func() { pp, rr, _ = keyproof.VerifFindPrimePowerKey() }); pv != nil || pp == nil {
+		r.Inconclusive("no modulus with a prime-power factor found for the forged key proof")
+		return
+	}
+	bases := []*big.Int{bi(36), bi(49)}
+	// (a primality proof about q' itself is not attempted: the library's honest sub-prover does not return on a composite)
+	for _, slot := range []string{"pprime"} {
+		var acc, qspp bool
+		inflight("forged key proof for N with Q = 2r^3+1, primality slot about " + slot)
+		pv, stack := mon.Try(func() { acc, qspp = keyproof.VerifForgeKeyProofPrimePowerFactor(pp, rr, bases, slot) })
+		inflight("")
+		r.Distinct("prime-power-factor", slot)
+		if pv != nil {
+			// the honest sub-provers refuse to work on the false statement: nothing was presented to the verifier
+			r.Eval("prime-power-factor", "error")
+			r.PanicSeen(mon.PanicSite(stack))
+			continue
+		}
+		r.Eval("prime-power-factor", outcome(acc, nil))
+		r.Set("prime_power_key_qspp_part_holds", qspp)
+		if acc {
+			r.Violation("C17/key-with-prime-power-factor-accepted", fmt.Sprintf("the key-correctness proof is accepted for N = P*Q with Q = 2*r^3+1 (q' = r^3 is not prime), the primality slot of q' holding a proof about %s", slot),
+				map[string]any{"pprime": dumpInt(pp), "r": dumpInt(rr), "slot": slot})
+		}
+	}
+	r.FloorFam("prime-power-factor", 1)
 }
 
 // ---- (d) component soundness ----
